@@ -145,9 +145,58 @@ def tie_runs(ctx, rng):
             ctx.coverage["distinct_nontrivial"] += 1
 
 
+def param_file_runs(ctx, rng):
+    """`run_simulator(path)`: what the run does is what the file says *now* -- also when the same path was used for another run earlier in the process"""
+    import tempfile
+    from eudoxia.simulator import run_simulator
+    with tempfile.TemporaryDirectory() as td:
+        path = os.path.join(td, "params.toml")
+        prev = None
+        for k in range(3):
+            params = {"duration": 10, "ticks_per_second": 10, "waiting_seconds_mean": 0.5, "num_pipelines": 2, "num_operators": 3, "num_pools": 2,
+                      "cpus_per_pool": 4, "ram_gb_per_pool": 64, "random_seed": rng.randint(0, 10 ** 6), "scheduler_algo": ["naive", "priority", "naive"][k]}
+            with open(path, "w") as f:
+                for key, v in params.items():
+                    f.write(f"{key} = {json.dumps(v)}\n")
+            from_file = repr(run_simulator(path))
+            from_dict = repr(run_simulator(dict(params)))
+            ctx.coverage["evaluations"] += 2
+            ctx.sit("parameter_file_runs")
+            if from_file != from_dict:
+                viol(ctx, "not-reproducible", f"run_simulator(<file>) after the file was rewritten (run {k + 1} on the same path) differs from run_simulator(<the same "
+                                              f"parameters as a dict>)" + (": it equals the run of the file's previous contents" if from_file == prev else ""),
+                     {"params": params, "run_on_same_path": k + 1})
+                return
+            prev = from_file
+        ctx.coverage["distinct_nontrivial"] += 1
+
+
+def hash_seed_sweep(ctx, rng):
+    """every scheduler on three pools (two for priority-pool), the same configuration under four different PYTHONHASHSEEDs: anything that leans on the hash of
+    a string, a uuid or an object id to order pools, pipelines or containers shows up as a different run"""
+    for algo in ["naive", "priority", "priority-pool", "overbook", "template"]:
+        params = {"duration": 20, "ticks_per_second": 10, "waiting_seconds_mean": 0.5, "num_pipelines": 3, "num_operators": rng.choice([3, 5]),
+                  "cpu_io_ratio": 0.5, "num_pools": 2 if algo == "priority-pool" else 3, "cpus_per_pool": rng.choice([2, 4]), "ram_gb_per_pool": 64,
+                  "multi_operator_containers": True if algo == "priority-pool" else rng.random() < 0.5, "allow_memory_overcommit": algo == "overbook",
+                  "random_seed": rng.randint(0, 10 ** 6)}
+        spec = {"params": params, "algo": algo}
+        runs = [child(spec, h) for h in (0, 1, 2, 3)]
+        ctx.coverage["evaluations"] += 4
+        ctx.sit("hash_seed_sweeps")
+        for h, other in enumerate(runs[1:], 1):
+            if other != runs[0]:
+                viol(ctx, "not-reproducible", f"the same parameters give a different run under PYTHONHASHSEED={h} than under PYTHONHASHSEED=0 ({algo}, "
+                                              f"{params['num_pools']} pools): {first_diff(runs[0], other)}", {"params": params, "algo": algo})
+                break
+        else:
+            ctx.coverage["distinct_nontrivial"] += 1
+
+
 def run(ctx):
     rng = random.Random(ctx.seed)
     tie_runs(ctx, random.Random(ctx.seed + 29))
+    hash_seed_sweep(ctx, random.Random(ctx.seed + 31))
+    param_file_runs(ctx, random.Random(ctx.seed + 37))
     seed_sweep(ctx, rng)
     settings_sweep(ctx, rng)
     dag_order_runs(ctx, rng)
